@@ -16,6 +16,7 @@ import (
 	"fmt"
 	"math/bits"
 	"os"
+	"regexp"
 	"sort"
 	"strings"
 
@@ -235,7 +236,9 @@ func c04Shapes(reg *template.Registry) map[string]bool {
 func c04Bundles(e *env, n int) []*c04Unit {
 	var out []*c04Unit
 	for i := 0; i < n; i++ {
-		o := progOpts{depth: 3, directives: true, jsSafe: true, core: true, useIj: i%4 == 0, noLog: i%5 != 0}
+		// helperNames: lets named like the generator's loop helpers (xList, xLimit_1, x1 ...) live with a loop over $x -- the
+		// boundary of the freshness invariant of the generated names (ginv in Proofs/MiniJSCtl.v)
+		o := progOpts{depth: 3, directives: true, jsSafe: true, core: true, useIj: i%4 == 0, noLog: i%5 != 0, helperNames: i%2 == 0}
 		files, entry, dataSets, feats := genBundle(e.rng, o)
 		b := &c14Bundle{Stream: "prog", Files: files, Feats: feats}
 		if i%3 == 0 {
@@ -256,7 +259,8 @@ func c04Bundles(e *env, n int) []*c04Unit {
 // hand-written cases for the divergences listed in DESIGN.md section 4 C04 / Appendix A (J1..J7, I11)
 func c04Corpus(e *env) []*c04Unit {
 	mk := func(name, params, body string, d data.Map) []*c04Unit {
-		src := "{namespace corpus.c04}\n\n/**\n" + params + " */\n{template .t}\n" + body + "\n{/template}\n"
+		src := "{namespace corpus.c04}\n\n/**\n" + params + " */\n{template .t}\n" + body + "\n{/template}\n" +
+			"\n/**\n * @param? p\n */\n{template .u}\n<{$p}>\n{/template}\n"
 		b := &c14Bundle{Stream: "corpus:" + name, Files: []srcFile{{"corpus.soy", src}}}
 		return c04Prepare(e, b, "corpus.c04.t", []data.Map{d}, nil)
 	}
@@ -288,6 +292,16 @@ func c04Corpus(e *env) []*c04Unit {
 	add(mk("hidden-js-var", " * @param l\n * @param __var\n", "{foreach $x in $l}{$__var}{/foreach}", data.Map{"l": data.List{data.Int(7), data.Int(8)}, "__var": data.String("v")}))
 	add(mk("hidden-js-limit", " * @param __limit\n", "{for $x in range(2)}{$__limit}{/for}", data.Map{"__limit": data.String("m")}))
 	add(mk("css", " * @param s\n", "{css foo}{css $s, bar}", data.Map{"s": data.String("base")}))
+	// lets named like the helper variables of a loop over $x, live with the loop (outside and inside it), for every suffix
+	// the generator derives helper names with; the boundary of the freshness invariant of the generated names
+	xs := data.Map{"xs": data.List{data.String("a"), data.String("b")}}
+	for _, sfx := range helperSuffixes() {
+		add(mk("helper-name-outer-"+sfx, " * @param xs\n", "{let $x"+sfx+": 'kept' /}{foreach $x in $xs}[{$x}{index($x)}{isLast($x) ? 'L' : ''}]{/foreach}{sp}{$x"+sfx+"}", xs))
+		add(mk("helper-name-inner-"+sfx, " * @param xs\n", "{foreach $x in $xs}{let $x"+sfx+": 'in' /}[{$x}{index($x)}{isLast($x) ? 'L' : ''}{$x"+sfx+"}]{/foreach}", xs))
+		add(mk("helper-name-range-"+sfx, "", "{let $x"+sfx+": 'kept' /}{for $x in range(1, 6, 2)}{let $x"+sfx+"_1: 'in' /}[{$x}{index($x)}{isLast($x) ? 'L' : ''}{$x"+sfx+"_1}]{/for}{sp}{$x"+sfx+"}", data.Map{}))
+	}
+	add(mk("helper-name-digits", " * @param xs\n", "{let $x_1: 'p' /}{let $x1: 'q' /}{foreach $x in $xs}{let $x_2: 'r' /}[{$x}{$x_2}]{/foreach}{$x_1}{$x1}", xs))
+	add(mk("helper-name-param-buffer", "", "{let $param: 'kept' /}{call .u}{param p}[{$param}]{/param}{/call}{$param}", data.Map{}))
 	return out
 }
 
@@ -535,6 +549,9 @@ func c04Known(u *c04Unit, c c04Call, got, jsErr string) string {
 	if strings.Contains(got, "quot;") && strings.ReplaceAll(got, "quot;", "#34;") == c.goOut && c04HasQuote(u, c) {
 		return "quote-entity"
 	}
+	if c04ParamBufferTrigger(u) {
+		return "js-param-buffer-binds-name"
+	}
 	if u.shapes["print-collection"] || c04PrintsCollection(u, c) {
 		return "print-collection"
 	}
@@ -579,6 +596,19 @@ func c04PrintsCollection(u *c04Unit, c c04Call) bool {
 }
 
 var _ = sort.Strings
+
+// c04ParamBufferTrigger: the trigger of js-param-buffer-binds-name (pending repair C04-11): some file refers to a Soy
+// variable called exactly $param and has a content parameter
+var c04DollarParam = regexp.MustCompile(`\$param([^A-Za-z0-9_]|$)`)
+
+func c04ParamBufferTrigger(u *c04Unit) bool {
+	for _, f := range u.b.Files {
+		if c04DollarParam.MatchString(f.Text) && strings.Contains(f.Text, "{/param}") {
+			return true
+		}
+	}
+	return false
+}
 
 // c04HasQuote: the trigger of quote-entity: a double quote occurs in the sources or in the data
 func c04HasQuote(u *c04Unit, c c04Call) bool {
